@@ -115,9 +115,17 @@ func init() {
 	// ---- net/http request parsing stubs -----------------------------------
 	intrinsics["(*net/http.Request).BasicAuth"] = func(fr *frame, args []value) value {
 		fr.i.event("BasicAuth")
+		if _, ok := fr.i.ghost["BasicAuth.ok"]; !ok {
+			return fallThrough // no ghost triple: net/http's own header parsing is run
+		}
 		return tuple{ghostOr(fr, "BasicAuth.user", ""), ghostOr(fr, "BasicAuth.pass", ""), ghostOr(fr, "BasicAuth.ok", false)}
 	}
-	intrinsics["(*net/http.Request).SetBasicAuth"] = func(fr *frame, args []value) value { return nil }
+	intrinsics["(*net/http.Request).SetBasicAuth"] = func(fr *frame, args []value) value {
+		if _, ok := fr.i.ghost["BasicAuth.ok"]; !ok {
+			return fallThrough
+		}
+		return nil
+	}
 	intrinsics["(*net/http.Request).FormValue"] = func(fr *frame, args []value) value {
 		key := concStr(fr, args[1], "FormValue key")
 		fr.i.event("FormValue", key)
